@@ -404,6 +404,9 @@ def run(ctx) -> Report:
     from .c06 import make_interp
 
     rep = Report("C03")
+    # the memo-key clause first: it needs no interpretation, and what it finds is reported even if a later clause cannot follow the code
+    from ..memokey import check_memo_keys, memo_rule  # noqa: F401
+    check_memo_keys(ctx, rep, "C03-key", [MOD], only_functions=None)
     check_tables(ctx, rep, "C03", ["GradRuleset", "ReferenceGradRuleset"])
     lifted = calc_instances(ctx, rep, "GradRuleset", "C03", var_shapes=((2,),) + (((3,),) if ctx.thorough() else ()))
     calc_instances(ctx, rep, "ReferenceGradRuleset", "C03", var_shapes=((2,),))
@@ -425,7 +428,6 @@ def run(ctx) -> Report:
     from .c03_compose import compose_grad
 
     compose_grad(ctx, rep)
-    check_memo_keys(ctx, rep, "C03-key", [MOD], only_functions=None)
     rep.require_min("C03-compose", 40)
     rep.require_min("C03-table", 270)
     rep.require_min("C03-calc", 100)
